@@ -155,13 +155,18 @@ def gen_content(ch, cfg):
     c = {}
     c["seed"] = ch.draw("img_seed", 1 << 20)
     c["kind"] = ch.pick("img_kind", ("noise", "noise", "gradient", "constant", "noise", "sources"))
-    c["offset_pow"] = ch.pick("offset", (None, 0, 3, 7, 10, 13, -3))     # offset = +-2**pow
+    rel = ch.pick("offset", (None, 0, 3, 7, 10, 13, -3))     # DC offset = +-2**rel times the noise rms
     c["offset_neg"] = bool(ch.draw("offset_neg", 2))
-    c["sigma_pow"] = ch.pick("sigma", (0, -4, 5))
+    c["sigma_pow"] = ch.pick("sigma", (0, -4, 5, 0, -24, 14))             # noise rms 2**sigma_pow: also ~6e-8 and 16384
+    c["offset_pow"] = None if rel is None else c["sigma_pow"] + rel
     nb = ch.weighted("nblank_kind", [5, 2, 1, 1, 1])                      # none|pixels|block|row|col
     c["blank"] = ("none", "pixels", "block", "row", "col")[nb]
     c["blank_inf"] = bool(ch.draw("blank_inf", 2)) if nb else False
     c["blank_seed"] = ch.draw("blank_seed", 1 << 16) if nb else 0
+    if cfg["bitpix"] > 0 and c["sigma_pow"] not in (0, -4, 5):
+        # BSCALE must survive the 16 significant digits of a FITS header card exactly: 2**-32 does not
+        c["sigma_pow"] = 0
+        c["offset_pow"] = None if rel is None else rel
     if cfg["bitpix"] > 0:
         # integer pixels: the file stores physical / BSCALE with BSCALE = one quantum of the dyadic grid, so the stored
         # values are whole numbers; integer images cannot hold NaN/inf
